@@ -364,6 +364,69 @@ fn nanobind_position_probe(rep: &mut Report) {
 /// A borrowing struct nested in a borrowing struct: the outer struct's `_fieldsForLifetimeX` getter (JS, Dart) has to
 /// gather, for every field, the inner getters of *all* definition lifetimes instantiated with `X` — also when one outer
 /// lifetime fills several parameters (`Pair<'a, 'a>`) or they are crossed (`Pair<'b, 'a>`) — and it has to evaluate.
+
+/// The JS runtime's side of a borrow edge for slices: generated code calls `CleanupArena.createWith(...edgeArrays)`
+/// once per slice field with the edge arrays of every lifetime that field must outlive; the arena that owns the wasm
+/// buffer must then be reachable from *each* of those arrays (that is what keeps the buffer alive while any holder
+/// of the array lives), whatever calls came before.  Executed in Node on the runtime file as generated.
+fn js_arena_probe(rep: &mut Report, seed: u64) {
+    let o = tool::run_backend("#[diplomat::bridge]\nmod ffi { #[diplomat::opaque] pub struct O; impl O { pub fn f<'a>(&'a self, s: &'a DiplomatStr) -> &'a DiplomatStr { s } } }", "js");
+    let Some(rt) = o.files.get("diplomat-runtime.mjs") else { rep.notes.push("js arena probe: no diplomat-runtime.mjs".into()); return };
+    let dir = util::workdir("C04arena");
+    let _ = std::fs::remove_dir_all(&dir);
+    std::fs::create_dir_all(&dir).unwrap();
+    std::fs::write(dir.join("diplomat-runtime.mjs"), rt).unwrap();
+    // call sequences: which of four arrays each call names (in order), `n` standing for a null entry
+    let mut rng = crate::rng::Rng::new(seed ^ 0xA7E7A);
+    let mut seqs: Vec<Vec<Vec<i8>>> = vec![
+        vec![vec![0], vec![0, 1]],                 // second call's list starts like the first one
+        vec![vec![0, 1], vec![0]],
+        vec![vec![0, 1], vec![0, 1], vec![1, 0]],
+        vec![vec![0], vec![0], vec![0, 2, 1]],
+        vec![vec![-1, 0], vec![0, -1, 1]],
+        vec![vec![], vec![1]],
+    ];
+    for _ in 0..40 {
+        let n = 2 + rng.below(5);
+        seqs.push((0..n).map(|_| { let k = rng.below(4); (0..k).map(|_| if rng.chance(1, 8) { -1 } else { rng.below(4) as i8 }).collect() }).collect());
+    }
+    let js_seqs = seqs.iter().map(|s| format!("[{}]", s.iter().map(|c| format!("[{}]", c.iter().map(|x| x.to_string()).collect::<Vec<_>>().join(","))).collect::<Vec<_>>().join(","))).collect::<Vec<_>>().join(",");
+    let prog = format!(r#"import {{ CleanupArena }} from './diplomat-runtime.mjs';
+const seqs = [{js_seqs}];
+seqs.forEach((seq, si) => {{
+  const arrays = [[], [], [], []];
+  const fn = new CleanupArena();
+  seq.forEach((call, ci) => {{
+    const args = call.map(i => i < 0 ? null : arrays[i]);
+    for (const how of ['createWith', 'maybeCreateWith']) {{
+      const arena = how === 'createWith' ? CleanupArena.createWith(...args) : CleanupArena.maybeCreateWith(fn, ...args);
+      const missing = call.filter(i => i >= 0 && !arrays[i].includes(arena));
+      const local = how === 'maybeCreateWith' && call.length === 0;
+      if (missing.length > 0 && !local) console.log('missing ' + si + ' ' + ci + ' ' + how + ' ' + JSON.stringify(call) + ' ' + JSON.stringify(missing));
+      if (local && arena !== fn) console.log('notlocal ' + si + ' ' + ci);
+      if (!local && arena === fn) console.log('local ' + si + ' ' + ci + ' ' + how);
+    }}
+  }});
+}});
+console.log('done ' + seqs.length);
+"#);
+    std::fs::write(dir.join("main.mjs"), prog).unwrap();
+    let (ok, out, err) = util::run(std::process::Command::new("node").arg(dir.join("main.mjs")));
+    rep.oracle_runs += 1;
+    rep.count_n("probe:js-arena-sequences", seqs.len());
+    if !ok || !out.contains("done ") {
+        if err.contains("No such file") { rep.notes.push("js arena probe: node not available".into()); return; }
+        rep.oracle_fail("(c04 probe js-arena)", "the JS runtime's CleanupArena helpers throw", json!({"stderr": err.lines().take(5).collect::<Vec<_>>()}));
+        return;
+    }
+    for l in out.lines().filter(|l| !l.starts_with("done")) {
+        let f: Vec<&str> = l.splitn(5, ' ').collect();
+        let si: usize = f.get(1).and_then(|x| x.parse().ok()).unwrap_or(0);
+        rep.oracle_fail(&format!("(c04 probe js-arena calls={:?})", seqs.get(si)), "an arena created for a borrowed slice is not appended to every edge array it was created with: a holder of that array does not keep the buffer alive", json!({"line": l}));
+    }
+    let _ = std::fs::remove_dir_all(&dir);
+}
+
 fn nested_struct_probe(rep: &mut Report) {
     let src = "#[diplomat::bridge]\nmod ffi {\n    use diplomat_runtime::DiplomatStrSlice;\n    #[diplomat::opaque]\n    pub struct Node(pub u32);\n    pub struct Pair<'p, 'q> { pub first: &'p Node, pub first_label: DiplomatStrSlice<'p>, pub second: &'q Node, pub second_label: DiplomatStrSlice<'q> }\n    pub struct Wrapper<'a> { pub pair: Pair<'a, 'a>, pub tag: u8 }\n    pub struct Cross<'a, 'b> { pub pair: Pair<'b, 'a>, pub other: Pair<'a, 'a> }\n    #[diplomat::opaque]\n    pub struct View<'a>(pub &'a Node, pub &'a Node);\n    impl<'a> View<'a> {\n        pub fn from_wrapper(w: Wrapper<'a>) -> Box<View<'a>> { unimplemented!() }\n        pub fn from_cross<'b>(c: Cross<'a, 'b>) -> Box<View<'a>> { unimplemented!() }\n    }\n}\n";
     let case = "(c04 probe nested-borrowing-structs)";
@@ -733,6 +796,7 @@ pub fn main(args: &[String]) {
     nanobind_position_probe(&mut rep);
     nested_struct_probe(&mut rep);
     dart_slice_view_probe(&mut rep);
+    js_arena_probe(&mut rep, a.seed);
     { let mut r2 = Rng::new(a.seed ^ 0x6e65); nested_random(&mut rep, &mut r2, if thorough { 400 } else { 40 }); }
     let n = if a.n > 0 { a.n } else if thorough { 20000 } else { 2000 };
     let sigs: Vec<Sig> = (0..n).map(|i| gen_sig(&mut rng, if thorough && i % 4 == 0 { 6 } else { 4 }, true)).collect();
